@@ -29,7 +29,9 @@ def run_rp(ctx, shapes, per_shape_axes, big=()):
     for (n0, n1) in shapes:
         for axis in per_shape_axes:
             for listed in (False, True):
-                sigs = pt.vary(pt.make_sigs(rng, (n0, n1), n=128), k + k // 5)
+                # the flattening of the first two axes is where memory order can leak: Fortran order / a transposed view whenever both extents exceed 1
+                av = ([1, 3][listed] if (axis == (0, 1) and n0 > 1 and n1 > 1) else k + k // 5) % 6
+                sigs = pt.vary(pt.make_sigs(rng, (n0, n1), n=128), av)
                 if not listed:
                     kwargs = pt.kw_variant(rng, k)
                 elif axis == (0, 1):
@@ -50,7 +52,7 @@ def run_rp(ctx, shapes, per_shape_axes, big=()):
                 if axis != (0, 1):
                     case['check_schedule'] = False if not case['logs'][0] else case['check_schedule']
                 cases.append(case)
-                metas.append({'shape': [n0, n1], 'array': pt.ARRAY_VARIANTS[(k + k // 5) % 6], 'axis': str(axis), 'options': ('2-D list' if axis == (0, 1) else '1-D list') if listed else 'shared',
+                metas.append({'shape': [n0, n1], 'array': pt.ARRAY_VARIANTS[av], 'axis': str(axis), 'options': ('2-D list' if axis == (0, 1) else '1-D list') if listed else 'shared',
                               'n_jobs': n_jobs, 'progress': progress, 'api': 'BycycleGroup.fit' if via_group else 'compute_features_3d',
                               'realised_completion_order': realised, 'worker_processes_used': len(case['logs'])})
                 k += 1
